@@ -182,6 +182,12 @@ def check(case, acc):
         flat = [a for r in exps for a in r]
         _cmp(acc, "ra[mask]", A(flat, shape=(len(flat),)), observe(lambda: _ra(rows)[mk()]))
         # one pair of objects through the whole sequence of functions, then unchanged
+        held_y = _ra(y)
+        _cmp(acc, "where(mask, x, y) on held operands", R([[a if b else c for a, b, c in zip(r, mr, yr)] for r, mr, yr in zip(rows, mrows, y)]),
+             observe(lambda: np.where(held_m, held_x, held_y)))
+        _cmp(acc, "where(~mask, x, y) afterwards", R([[c if b else a for a, b, c in zip(r, mr, yr)] for r, mr, yr in zip(rows, mrows, y)]),
+             observe(lambda: np.where(~held_m, held_x, held_y)))
+        _cmp(acc, "y after where", R(y), observe(lambda: held_y))
         seq = observe(lambda: (np.nonzero(held_m), np.where(held_m, held_x, -5), held_x.subset(held_m), held_x[held_m], held_m.nonzero())[2])
         _cmp(acc, "subset after a sequence of calls on the same objects", R(exps), seq)
         _cmp(acc, "operand after the sequence", R(rows), observe(lambda: held_x))
